@@ -347,3 +347,118 @@ def form_at(du: DefUse, nid: int, e: ast.AST, leaf, depth: int = 5):
                 return form_at(du, d.node, d.value, leaf, depth - 1)
         return None
     return eval_form(e, res)
+
+
+# ---------------------------------------------------------------------------
+# origin: a name-independent rendering of a local value
+def origin(du: DefUse, nid: int, expr: ast.AST, depth: int = 6) -> ast.AST:
+    """Copy of `expr` in which every *local* name is replaced by where its value comes from,
+    so that the result mentions only parameters, attributes, globals and calls:
+
+      plain unique definition        -> the defining expression (recursively)
+      loop / comprehension variable  -> ELEM(<iterable>); for enumerate(X): INDEX(X) / ELEM(X);
+                                        for zip(A, B, ..): ELEM(A), ELEM(B), ..
+      tuple-unpacking position k     -> ITEM_k(<value>)
+      `with ... as x`                -> ENTER(<context expression>)
+      several plain definitions      -> PHI(<origins, sorted by text>)
+
+    Renaming locals or hoisting sub-expressions into temporaries leaves the result unchanged.
+    Parameters keep their names (they are part of the API)."""
+    import copy
+
+    def call(fn, *args):
+        return ast.Call(func=ast.Name(id=fn, ctx=ast.Load()), args=list(args), keywords=[])
+
+    def of_def(d: Def, k: int) -> Optional[ast.AST]:
+        if d.value is None or isinstance(d.value, (ast.FunctionDef, ast.ClassDef, ast.Lambda)):
+            return None
+        sel = list(d.sel)
+        if not sel:
+            return T(d.node, k - 1).visit(copy.deepcopy(d.value))
+        if sel[0] == ("iter",):
+            # the iterable in origin form, order-only wrappers peeled off
+            # (list(..), tuple(..), reversed(..), [::-1] keep the pairing of index and element)
+            it = T(d.node, k - 1).visit(copy.deepcopy(d.value))
+            if isinstance(it, ast.Call) and isinstance(it.func, ast.Name) and it.func.id == "PHI":
+                alts = {ast.unparse(_peel(a)): _peel(a) for a in it.args}
+                if len(alts) == 1:
+                    it = next(iter(alts.values()))
+            it = _peel(it)
+            idx = [s[1] for s in sel[1:] if s[0] == "idx"]
+            fn = dotted(it.func) if isinstance(it, ast.Call) else None
+            if fn == "enumerate" and it.args and idx:
+                base = it.args[0]
+                out = call("INDEX", base) if idx[0] == 0 else call("ELEM", base)
+                for j in idx[1:]:
+                    out = call(f"ITEM_{j}", out)
+                return out
+            if fn == "zip" and idx and idx[0] < len(it.args):
+                out = call("ELEM", it.args[idx[0]])
+                for j in idx[1:]:
+                    out = call(f"ITEM_{j}", out)
+                return out
+            out = call("ELEM", it)
+            for j in idx:
+                out = call(f"ITEM_{j}", out)
+            return out
+        if sel[0][0] == "idx":
+            out = T(d.node, k - 1).visit(copy.deepcopy(d.value))
+            for s in sel:
+                if s[0] == "idx":
+                    out = call(f"ITEM_{s[1]}", out)
+                else:
+                    return None
+            return out
+        if sel[0] == ("with",):
+            return call("ENTER", T(d.node, k - 1).visit(copy.deepcopy(d.value)))
+        return None
+
+    def _peel(it):
+        while True:
+            if isinstance(it, ast.Call) and dotted(it.func) in ("list", "tuple", "reversed") \
+                    and len(it.args) == 1 and not it.keywords:
+                it = it.args[0]
+            elif isinstance(it, ast.Subscript) and isinstance(it.slice, ast.Slice) \
+                    and it.slice.lower is None and it.slice.upper is None:
+                it = it.value
+            else:
+                return it
+
+    class T(ast.NodeTransformer):
+        def __init__(self, at, k):
+            self.at, self.k = at, k
+
+        def visit_Name(self, node):
+            if not isinstance(node.ctx, ast.Load) or self.k <= 0:
+                return node
+            ds = [d for d in du.reaching(self.at, node.id)]
+            if not ds or any(d.sel == (("param",),) or d.sel == (("import",),) for d in ds):
+                return node
+            ds = [d for d in ds if d.node != self.at or d.sel]
+            outs = []
+            for d in ds:
+                o = of_def(d, self.k)
+                if o is None:
+                    return node
+                outs.append(o)
+            if not outs:
+                return node
+            texts = sorted({ast.unparse(o): o for o in outs}.items())
+            if len(texts) == 1:
+                return texts[0][1]
+            return call("PHI", *[o for _, o in texts])
+
+        def visit_Lambda(self, node):
+            return node
+
+        def visit_ListComp(self, node):
+            return node
+
+        visit_SetComp = visit_DictComp = visit_GeneratorExp = visit_ListComp
+
+    return T(nid, depth).visit(copy.deepcopy(expr))
+
+
+def origin_text(du: DefUse, nid: int, expr: ast.AST, depth: int = 6) -> str:
+    from .model import norm
+    return norm(origin(du, nid, expr, depth))
